@@ -274,6 +274,7 @@ def worker(job):
             for k in range(max(4, nrandom // 2)):
                 asyncio.run(filelock_case(part, r, m))
                 asyncio.run(withwrite_case(part, r))
+                asyncio.run(withinit_case(part, r))
             for k in range(max(3, nrandom // 3)):
                 with guarded(part, 'C20 threading lock', dict(scenario='threading-rwlock', seed=seed)):
                     threading_case(part, r, m)
@@ -432,6 +433,53 @@ async def withwrite_case(part, r):
         for e in left:
             part.violation('monitor', f'with_write({cls.__name__}): {e} with plan {plan}', case, signature='withwrite-' + e[0])
     finally:
+        backends.rmtree(d)
+
+
+async def withinit_case(part, r):
+    """first use of a control file (`FileWriteable.with_init`): the file is created under the write lock.  When creating it fails (the disk is full at the rename, say) the
+    lock file is gone the moment the `async with` has been left - also while the error is still being held by whoever reports it - and the next user gets the lock"""
+    import errno
+    from pymap.backend.maildir.uidlist import UidList
+    from pymap.backend.maildir.subscriptions import Subscriptions
+    d = backends.scratch_dir('pymap-verif-wi-')
+    cls = r.choice([UidList, Subscriptions])
+    fault = r.choice(['rename', 'rename', 'none'])
+    case = dict(scenario='with_init', cls=cls.__name__, fault=fault)
+    orig = os.rename
+
+    def failing(src, dst, *a, **kw):
+        if str(dst).startswith(d):
+            raise OSError(errno.ENOSPC, 'No space left on device')
+        return orig(src, dst, *a, **kw)
+    kept = None
+    try:
+        if fault == 'rename':
+            os.rename = failing
+        try:
+            async with cls.with_init(d):
+                pass
+        except OSError as exc:
+            kept = exc        # an error report keeps the exception, and with it the frames of the section, alive
+        finally:
+            os.rename = orig
+        part.case(key=f'wi:{cls.__name__}:{fault}', nontrivial=fault != 'none')
+        part.stat('with-init-cases')
+        locks = [f for f in os.listdir(d) if f.endswith('.lock')]
+        if locks:
+            part.violation('monitor', f'with_init({cls.__name__}): the section was left ({"by " + type(kept).__name__ if kept else "normally"}) and {locks} is still there', case,
+                           signature='withinit-lock-left')
+            return
+        try:
+            async with asyncio.timeout(3.0):
+                async with cls.with_write(d):
+                    pass
+        except TimeoutError:
+            part.violation('monitor', f'with_init({cls.__name__}) left by {type(kept).__name__ if kept else "normal exit"}: the next writer does not get the lock within 3 s', case,
+                           signature='withinit-next-blocked')
+    finally:
+        os.rename = orig
+        del kept
         backends.rmtree(d)
 
 
